@@ -29,8 +29,6 @@ import (
 
 // ---------------------------------------------------------------- the snapshot-type controller model
 
-type vCrash struct{ why string }
-
 type vSTC struct {
 	due      Type
 	dueErr   error
@@ -156,6 +154,7 @@ func vFullSinkWrite(s *FullSink, p []byte) (int, error) {
 		return 0, ErrUnexpectedData
 	}
 	n := vFS.nodes[s.dbFile]
+	vFS.tick("append " + s.dbFile)
 	n.data = append(n.data, p...)
 	s.remaining -= uint64(len(p))
 	return len(p), nil
@@ -630,6 +629,85 @@ func VerifC09Abandon() {
 	vCheckCatalog("abandoned", w.dir, w.pre, true)
 	vRestart(w.dir)
 	vCheckCatalog("abandoned-restarted", w.dir, w.pre, true)
+}
+
+// VerifC09CrashPoints (symbolic run only - the real file system cannot be stopped between two
+// calls): the process dies instead of the k-th mutating file-system call of the sink's life
+// (Open, Write, Close), for every k. Calls that completed persist, the interrupted one does not
+// happen. After the restart the store lists exactly the snapshots whose final rename happened.
+func VerifC09CrashPoints() {
+	if !verifSymbolic() {
+		return
+	}
+	verifPanicsAreViolations()
+	incremental := vChoice("incremental", 2) == 1
+	pre, staged := vPreWorlds[2], 2
+	if verifTier() == 1 {
+		pre = vPreWorlds[1+vChoice("pre", 2)]
+	}
+	if !incremental {
+		staged = 0
+	}
+	w := vNewSinkWorld(pre, staged)
+	defer w.drop()
+	stc := &vSTC{due: Incremental, final: w.finalPath(), tmp: w.tmpPath()}
+	sink := w.newSink(stc, nil)
+	kind, payload := vHdrFull, vSQLiteHdr
+	if incremental {
+		kind, payload = vHdrIncremental, nil
+	}
+	hdr := w.headerBytes(kind)
+	stream := make([]byte, HeaderSizeLen, HeaderSizeLen+len(hdr)+len(payload))
+	binary.BigEndian.PutUint32(stream, uint32(len(hdr)))
+	stream = append(stream, hdr...)
+	stream = append(stream, payload...)
+
+	j0 := len(vFS.journal)
+	k := vChoice("crashAt", 14)
+	t0 := vFS.ticks
+	vFS.crashAt = t0 + k
+	var cerr error
+	died := vDies(func() {
+		verifAssert("C09-sink-open-ok", sink.Open() == nil)
+		_, err := sink.Write(stream)
+		verifAssert("C09-stream-accepted", err == nil)
+		cerr = sink.Close()
+	})
+	steps := vFS.ticks - t0
+	vFS.crashAt = -1
+	if died {
+		verifReach("crashed")
+		verifAssert("C09-crash-is-the-injected-one", steps == k)
+	} else {
+		verifReach("ran-to-completion")
+		verifAssert("C09-close-ok", cerr == nil)
+	}
+	// the oracle: what the journal says about the final rename
+	renamed := false
+	for _, e := range vFS.journal[j0:] {
+		if e == "rename "+w.tmpPath()+" "+w.finalPath() {
+			renamed = true
+		}
+	}
+	want := append([]vSnap(nil), w.pre...)
+	if renamed {
+		if died {
+			verifReach("crashed-after-publication")
+		}
+		want = append(want, vSnap{id: vNewID, full: !incremental, term: 1, index: 30, wals: staged})
+	} else {
+		verifReach("crashed-before-publication")
+		verifAssert("C09-requirement-cleared-only-after-publication", len(stc.sets) == 0)
+	}
+	verifAssert("C09-published-iff-final-rename-happened", vExists(w.finalPath()) == renamed)
+	if len(stc.sets) > 0 {
+		verifAssert("C09-requirement-cleared-after-publication", len(stc.sets) == 1 && stc.sets[0] == Incremental && stc.sawFinal && !stc.sawTmp)
+	}
+	// what a store that kept running would list (nothing here depends on the dead process) ...
+	vCheckCatalog("crash-live", w.dir, want, true)
+	// ... and the next start
+	vRestart(w.dir)
+	vCheckCatalog("crash-restarted", w.dir, want, true)
 }
 
 // ---------------------------------------------------------------- histories with the real controller
